@@ -80,6 +80,24 @@ CHECKS = {
         "Trusted: integer counting and Fraction arithmetic. Exact ties of mean target are not judged for rank agreement.",
         "DESIGN.md §4 C02",
     ),
+    "C06": (
+        "round-trip + differential PBT: json.dumps/loads/load_* of fitted objects, original vs rebuilt object on "
+        "training, float64-upcast and boundary-probe frames; re-serialisation compared after normalisation",
+        "Every class over int64/float64/float32/huge/tiny/non-representable values and numeric categories; the "
+        "rebuilt object must behave identically (transform outputs or exception type, summary) and re-serialise to "
+        "the same JSON. Exploration over bounded sizes.",
+        "Trusted: python's json module, NaN-aware frame comparison.",
+        "DESIGN.md §4 C06",
+    ),
+    "C07": (
+        "history-based PBT (operation sequences as data) with metamorphic row-purity relations and deep input "
+        "snapshots; differential fit_transform vs fit+transform",
+        "One fitted object and 1-12 interleaved transform calls over training / subset / permuted / re-indexed / "
+        "dev / cross-contaminated frames; invariants after every call (same result, unchanged state, index and "
+        "columns kept, foreign columns untouched, inputs unchanged with copy=True). Exploration.",
+        "Trusted: snapshot/compare helpers. No side-effect claim for copy=False.",
+        "DESIGN.md §4 C07",
+    ),
     "C04": (
         "PBT with a reference oracle: table-first generated samples, transform(X_train) compared with the "
         "mapping recomputed from values_orders (list+content) only; metamorphic string-form probe",
